@@ -146,15 +146,12 @@ func TestVerifC14(t *testing.T) {
 	p := gDefaultProfile
 	p.PFresh = 0.12
 	p.WLeave = 6
-	n := r.N(800, 15000)
-	for ci := 0; ci < n; ci++ {
-		rng := r.Rand(ci)
-		cfg := gGenConfig(rng, p, fmt.Sprintf("g%d", ci))
-		ops := gGenOps(rng, p, cfg)
-		o := &c14Obs{r: r, completed: map[string]bool{}, leaderOf: map[string]string{}, leaderSynced: map[string]bool{}, sawWait: map[string]bool{}}
-		w := gRunCase(t, cfg, ops, int64(ci)*100000, func(w *gWorld) {
-			w.obs = append(w.obs, o.observe, func(w *gWorld, ev *gEvent) { r.Seen("group_states", w.stateSig(ev.After)) })
-		})
+	n := r.N(600, 40000)
+	seen := func(w *gWorld, ev *gEvent) { r.Seen("group_states", w.stateSig(ev.After)) }
+	mk := func() *c14Obs {
+		return &c14Obs{r: r, completed: map[string]bool{}, leaderOf: map[string]string{}, leaderSynced: map[string]bool{}, sawWait: map[string]bool{}}
+	}
+	account := func(ci int, w *gWorld, o *c14Obs) {
 		if w.blocked {
 			r.Inconclusive(fmt.Sprintf("case %d: a coordinator call never returned", ci))
 		}
@@ -167,8 +164,29 @@ func TestVerifC14(t *testing.T) {
 			r.Sample(gWitness(w, -1, nil))
 		}
 	}
+	for ci := 0; ci < n; ci++ {
+		rng := r.Rand(ci)
+		if ci%3 == 2 { // two groups served by one coordinator, interleaved
+			cfgs, ops := gGenPair(rng, p, fmt.Sprintf("g%d", ci))
+			var os [2]*c14Obs
+			ws := gRunPair(t, cfgs, ops, int64(ci)*100000, func(i int, w *gWorld) {
+				os[i] = mk()
+				w.obs = append(w.obs, os[i].observe, seen)
+			})
+			account(ci, ws[0], os[0])
+			account(ci, ws[1], os[1])
+			r.Count("cases_with_two_groups_on_one_coordinator", 1)
+			continue
+		}
+		cfg := gGenConfig(rng, p, fmt.Sprintf("g%d", ci))
+		ops := gGenOps(rng, p, cfg)
+		o := mk()
+		w := gRunCase(t, cfg, ops, int64(ci)*100000, func(w *gWorld) { w.obs = append(w.obs, o.observe, seen) })
+		account(ci, w, o)
+	}
 	r.Floor("join_replies", 2000)
-	r.Floor("generations_completed_after_somebody_waited", 100)
+	r.Floor("generations_completed_after_somebody_waited", 50)
 	r.Floor("sync_after_completion_judged", 200)
 	r.Floor("group_states", 12)
+	r.Exhaustive(false) // a sample of histories; the bounded-exhaustive part is leg enum
 }
